@@ -377,6 +377,58 @@ static string op_eq(const vector<string> &a) {      // eq <g|s> <cmd> <g|s> <cmd
   return string("eq=") + ((*x == *y) ? "1" : "0") + ";eqsym=" + ((*y == *x) ? "1" : "0");
 }
 
+// combine <cmd1> <cmd2>: RDMResponse::CombineResponses
+static string op_combine(const vector<string> &a) {
+  std::auto_ptr<RDMResponse> r1(make_response(parse_fields(a[1]), 'g'));
+  std::auto_ptr<RDMResponse> r2(make_response(parse_fields(a[2]), 's'));
+  std::auto_ptr<RDMResponse> c(RDMResponse::CombineResponses(r1.get(), r2.get()));
+  if (!c.get()) return "comb=none";
+  ola::io::ByteString out;
+  string rp = RDMCommandSerializer::Pack(*c, &out) ? vh::hex(out.data(), out.size()) : "none";
+  return "comb=" + cmd_s(c.get()) + ";packed=" + rp;
+}
+
+static string frame_s(const RDMFrame &f) {
+  return vh::hex(f.data.data(), f.data.size()) + "/" + vh::str(f.timing.response_time) + "," +
+         vh::str(f.timing.break_time) + "," + vh::str(f.timing.mark_time) + "," + vh::str(f.timing.data_time);
+}
+// reply <rq|-> <t1,t2,t3,t4> <hex>: RDMReply::FromFrame / DUBReply keep the frame (data + timing) untouched;
+// RDMFrame::operator==
+static string op_reply(const vector<string> &a) {
+  std::auto_ptr<RDMRequest> rq;
+  if (a[1] != "-") rq.reset(make_request(parse_fields(a[1]), 'g', RDMRequest::OverrideOptions()));
+  vector<string> t = vh::split(a[2], ',');
+  vector<uint8_t> bytes = vh::unhex(a[3]);
+  vh::Exact e(bytes);
+  RDMFrame frame(e.p, e.n);
+  frame.timing.response_time = vh::num(t[0]); frame.timing.break_time = vh::num(t[1]);
+  frame.timing.mark_time = vh::num(t[2]); frame.timing.data_time = vh::num(t[3]);
+  string r;
+  {
+    std::auto_ptr<RDMReply> reply(RDMReply::FromFrame(frame, rq.get()));
+    r += "n=" + vh::str(reply->Frames().size());
+    for (size_t i = 0; i < reply->Frames().size(); i++) r += ";f" + vh::str(i) + "=" + frame_s(reply->Frames()[i]);
+    r += ";orig=" + frame_s(frame);
+    r += ";st=" + (reply->Response() ? string("ok") : vh::str(static_cast<int>(reply->StatusCode())));
+  }
+  {
+    std::auto_ptr<RDMReply> reply(RDMReply::DUBReply(frame));
+    r += ";dn=" + vh::str(reply->Frames().size());
+    for (size_t i = 0; i < reply->Frames().size(); i++) r += ";d" + vh::str(i) + "=" + frame_s(reply->Frames()[i]);
+    r += ";dst=" + vh::str(static_cast<int>(reply->StatusCode())) + ";dresp=" + (reply->Response() ? "1" : "0");
+  }
+  // operator==: an exact copy, then one difference at a time
+  string eq;
+  { RDMFrame c(frame); eq += (c == frame) ? "1" : "0"; }
+  { RDMFrame c(frame); c.timing.response_time ^= 1; eq += (c == frame) ? "1" : "0"; }
+  { RDMFrame c(frame); c.timing.break_time ^= 0x80000000u; eq += (c == frame) ? "1" : "0"; }
+  { RDMFrame c(frame); c.timing.mark_time ^= 0x100; eq += (c == frame) ? "1" : "0"; }
+  { RDMFrame c(frame); c.timing.data_time ^= 1; eq += (c == frame) ? "1" : "0"; }
+  { RDMFrame c(frame); c.data.push_back(0); eq += (c == frame) ? "1" : "0"; }
+  { RDMFrame c(frame); if (!c.data.empty()) c.data[c.data.size() - 1] ^= 1; eq += (c == frame) ? "1" : "0"; }
+  return r + ";feq=" + eq;
+}
+
 // keys of the builder ops are reported under a "b_" prefix: what a builder puts into a command is not
 // fixed by the property (those keys are outside prop.SPEC_KEYS)
 static string prefix_keys(const string &r, const string &pre) {
@@ -396,6 +448,8 @@ static string handle(const string &p) {
   if (op == "eq") return op_eq(a);
   if (op == "disc") return prefix_keys(op_disc(a), "b_");
   if (op == "null") return op_null(a);
+  if (op == "combine") return prefix_keys(op_combine(a), "b_");
+  if (op == "reply") return prefix_keys(op_reply(a), "b_");
   if (op == "pack") {
     std::auto_ptr<RDMCommand> c(make_cmd(a[1]));
     ola::io::ByteString out;
